@@ -224,6 +224,7 @@ func observeRun(dir string, start time.Time, xkey, ratekey int64, status int, ho
 		fn()
 	}()
 	reqs := srv.got()
+	sort.Strings(reqs) // reports() walks a Go map: the order of the created reports is not fixed
 	after := snapshot(dir)
 	lp2, l2 := listNames(filepath.Join(dir, "local"))
 	up2, u2 := listNames(filepath.Join(dir, "upload"))
@@ -608,7 +609,7 @@ func (s *scen) leftovers(start time.Time, weekEnd time.Time) {
 		os.WriteFile(filepath.Join(s.dir, "local", name), []byte(`{"Week":"`+ds+`"}`), 0666)
 	}
 	if rnd.Intn(60) == 0 {
-		// a name shorter than a date: uploadReportContents slices out of range
+		// a name shorter than a date: skipped by uploadReportContents (it used to slice out of range)
 		os.WriteFile(filepath.Join(s.dir, "local", "a.json"), []byte("{}"), 0666)
 		out.Note("left-short-name")
 	}
@@ -655,7 +656,7 @@ func (s *scen) uploadDir(start, weekEnd time.Time) {
 // with SetMode / new files in between
 func caseScenario() {
 	s := newScen()
-	defer os.RemoveAll(s.dir)
+	defer func() { os.RemoveAll(s.dir) }()
 	base := genBaseTime()
 	nfiles := Pick(rnd, []int{0, 1, 1, 1, 2, 2, 3})
 	t := base
@@ -674,6 +675,16 @@ func caseScenario() {
 		ref, refEnd = s.begins[0], s.ends[0]
 		if nfiles > 1 && rnd.Bool() {
 			ref = s.begins[rnd.Intn(nfiles)]
+		}
+	}
+	if rnd.Intn(8) == 0 {
+		// a telemetry directory whose path contains the week's date (notNeeded
+		// must look at the report's base name only)
+		nd := s.dir + "-" + dateStr(refEnd)
+		if err := os.Rename(s.dir, nd); err == nil {
+			s.dir = nd
+			telemetry.Default = telemetry.NewDir(s.dir)
+			out.Note("dir-path-contains-week-date")
 		}
 	}
 	s.chooseMode(ref, refEnd)
